@@ -197,12 +197,20 @@ def stepConv (cx : Ctx) (rc : Recv) (op : String) (args : List String) : Option 
       | .error e => pure (cx.fail e)
     | _ => pure cx.badOp
   | "clone", [] =>
-    pure { cx.same with toks := [toString t.numCols, toString t.numRows, fmtList data, "eq=1", "hasheq=1", "indep=1"],
-                         drops := cx.dr (data.map fun v => if cx.elem = .zst then 0 else v + 1) }
+    -- the harness's clone bumps every cell of the copy by one afterwards (independence test), so what it drops are the bumped values
+    let cl := t.clone id
+    pure { cx.same with toks := [toString cl.numCols, toString cl.numRows, fmtList cl.data,
+                                  if TD.eqDerived (fun x y => x == y) cl t then "eq=1" else "eq=0",
+                                  if TD.hashFeed (fun x => [x]) cl = TD.hashFeed (fun x => [x]) t then "hasheq=1" else "hasheq=0", "indep=1"],
+                         drops := cx.dr (cl.data.map fun v => if cx.elem = .zst then 0 else v + 1) }
   | "eq", [c, r, l] => do
     let c ← nat? c; let r ← nat? r; let l ← parseList l
-    let e := decide (c = t.numCols ∧ r = t.numRows ∧ cx.vs l = data)
-    pure { cx.same with toks := [if e then "1" else "0", if e then "hasheq=1" else "hasheq=0"], drops := cx.dr (cx.vs l) }
+    -- `==` and the hash digest through the transcriptions of the derived impls (`TD.eqDerived`, `TD.hashFeed`, C20): the
+    -- digests are predicted equal exactly when the two arrays feed the hasher the same sequence
+    let other : TD Nat := ⟨cx.vs l, r, c⟩
+    let e := TD.eqDerived (fun x y => x == y) t other
+    let he := decide (TD.hashFeed (fun x => [x]) t = TD.hashFeed (fun x => [x]) other)
+    pure { cx.same with toks := [if e then "1" else "0", if he then "hasheq=1" else "hasheq=0"], drops := cx.dr (cx.vs l) }
   | "vieweq", [] => pure { cx.same with toks := ["1", "hasheq=1"] }
   | _, _ => none
 
